@@ -309,6 +309,31 @@ class C18(Prop):
             "type holds; integer beta / inverse-gamma shapes up to 15 + 15 and 25, so gamma() is reached with integer-typed "
             "arguments up to 30), the size as Python int or numpy int16 / int32 / int64; same checks as for float parameters "
             "(a float32 parameter anywhere: axis 1e-6, unit sum 1e-5, weights 1e-5, exp underflow at -70). "
+            "FAR-TAIL CLASS (kernel:tail:*, ~7 % of the generated cases plus 69 targeted, every generator built from exp / log / "
+            "powers): parameters placed (location beyond the axis or between two samples, late part of an exponential tail, "
+            "log-location far from log x, inverse gamma far below / above its mode, a high beta power on an axis hugging 0, "
+            "widths up to 3e299 and rates down to 4e-320) so that EVERY sampled density is tiny: 1e-200 .. 1e-300, positive "
+            "but SUBNORMAL (half of the class: the sum of the densities is below 2.2e-308), at the underflow threshold, "
+            "exactly 0 everywhere.  Whether the float sum of the densities is positive is decided by the Lean model, not by "
+            "looking at the implementation (c18.kernel: tail): the density is a product of factors (exponential_factors_prod "
+            "... beta_factors_prod); at the axis point of largest modelled density, moved by +- the rounding of the axis, "
+            "every product of a sub-collection of the factors must lie in [8 * 2**-1074, 2**1000] (robustFactors; "
+            "robustFactors_spec: whatever the order of multiplication) - then finite non-negative weights with |sum - 1| <= "
+            "8 (n + 4) 2**-53 are demanded (normalise_approx; this tolerance now holds for every double-precision kernel case) "
+            "and every weight is compared with the model (tolerance widened by the subnormal step relative to the sum); below "
+            "that band, and where an intermediate value may overflow, the case is undetermined. HISTORY CLASSES "
+            "(kernel:history:*, ~5 % + 45 targeted; history:*, ~5 % + 16 targeted): a returned kernel is edited in place "
+            "(weights scaled, axis moved, zeroed, reversed, NaN) and the generator is asked again with equal arguments - the "
+            "same objects, hash-equal Python ints, numpy float64 - the second return value must meet the property and the "
+            "model like the first; convolve / deconvolve called 2-4 times on the same array objects: equal arguments again "
+            "after the result was edited in place, the kernel / signal arrays overwritten with new content (np.copyto) and "
+            "passed again. FLOAT-KERNEL CLASS (convolve:float-kernel:*, ~5 % + 36 targeted): the weights a generator returns "
+            "are the kernel of a pad-mode convolution (two public functions combined): length, interior = ordinary "
+            "convolution and constants reproduced, all within (m + 2) 2**-53 sum|psf| max|x| of the exact Lean result for the "
+            "returned weights taken as rationals. Kernels LONGER than the signal (convolve:n<m, ~3 % + 44 targeted, model "
+            "only: output length and constants); kernel lengths up to 32; constant signals with kernels that do not sum to "
+            "one (pad_conv_constant_scaled); deconvolution kernels up to 14 taps and signals up to 250 samples; generator "
+            "sizes up to 257 generated, 1000 / 2000 targeted for four generators and 100001 for the rational one. "
             "non-trivial = every case; distinct by canonical case hash")
     trusted = ["np.pad(mode='edge'), np.convolve(mode='valid'), np.linspace, np.stack, Python slicing as documented; "
                "irfft(rfft(c, r)/rfft(psf, r), r) equals the power-series quotient when the quotient has fewer than r "
@@ -317,7 +342,10 @@ class C18(Prop):
                "the driver's 40-digit exp / log / power and 30-digit sqrt (PewDriver/C18.lean: Taylor series in fixed point) "
                "are accurate to far better than the comparison tolerances; they are NOT part of any theorem (the theorems "
                "quantify over the special functions)",
-               "math.erf, math.gamma and statistics.NormalDist().inv_cdf are accurate to far better than the tolerances"]
+               "math.erf, math.gamma and statistics.NormalDist().inv_cdf are accurate to far better than the tolerances",
+               "far tails: the driver evaluates the modelled densities in 256-bit dyadic arithmetic (every operation rounded, "
+               "exp / log to 40 digits); a double-precision product of at most four factors is off by at most one step of the "
+               "subnormal grid per rounding, and np.exp / np.power return a positive subnormal for a true value above 8 steps"]
     assumptions = ["VALIDATED, NOT PROVED: accuracy of the erf (5e-4 abs), erfinv (6e-3 rel) and gamma (3e-7 rel) approximations "
                    "against the true functions - checked on the dense grids and random arguments of this run only; Mathlib has no "
                    "erf and no verified bounds for these approximations",
@@ -329,9 +357,17 @@ class C18(Prop):
                    "erfinv is modelled as coded around pi, log1p and sqrt (erfinvWith; odd for every choice of them: erfinv_odd); "
                    "its accuracy is validated only",
                    "kernel parameter domain: the sampled axis lies inside the support of the density (beta: [0,1]; exponential, "
-                   "inverse gamma, log-Laplace, log-normal: x > 0, shift >= 1e-6) and at least one axis point carries density "
-                   "above the underflow range; outside that domain (e.g. beta with scale 2) the generators return NaN/negative "
-                   "weights and the property's 'density finite on that axis' excludes them",
+                   "inverse gamma, log-Laplace, log-normal: x > 0) and the Lean tail decision finds an axis point whose density "
+                   "is robustly a positive double (normal or subnormal; every sub-product of its factors in [8 * 2**-1074, "
+                   "2**1000]); UNDETERMINED: all densities below that band (underflow to exactly 0 on the whole axis gives "
+                   "0/0 = NaN: outside 'density finite on that axis' as before), and parameters for which an intermediate value "
+                   "of the coded expression may overflow although the density itself is representable (x ** (-alpha - 1) at a "
+                   "tiny x, gamma(alpha) * gamma(beta), sigma * sqrt(2 pi), beta ** alpha: pewlib then returns NaN - recorded "
+                   "as kernel:tail:intermediate-overflow:pewlib-returns-nan, see notes/EC18.md O1); outside the support (e.g. "
+                   "beta with scale 2) the generators return NaN/negative weights and the property excludes them",
+                   "histories: a second call with equal arguments is held to the same specification as the first (the model is a "
+                   "function of its arguments); for convolve / deconvolve the argument arrays are (re)filled before every step, "
+                   "so an implementation that returns a view of its input is judged on the values it was given",
                    "known finding C18-erfinv-underflow: erfinv(x) = 0 for 0 < |x| < 1e-160; the grid stops at 1e-99, one targeted "
                    "case exercises it and is routed through known()",
                    "deconvolve is checked on first-tap-dominant kernels ('well-conditioned'; |p0| >= 1.25 sum|rest| inside "
@@ -347,10 +383,10 @@ class C18(Prop):
                    "subexpressions (size*scale + shift, a*(a - b), 2*power) are exact; inversegamma with two numpy-integer shapes "
                    "whose beta**alpha leaves their type is undetermined; unsigned numpy scalars as parameters or size are outside "
                    "the class (-_lambda, -size wrap around by numpy's rules)",
-                   "kernel cases are checked against the documented domain inside evaluate (triangular a <= 0 <= b, a < b and an "
-                   "axis point that carries density whichever way the float axis rounds; beta axis inside [0, 1]; one-sided "
-                   "generators x > 0, exponential x >= 0; symmetric generators: an axis point within the underflow range of the "
-                   "location); a case outside it (only a shrinker can produce one) is undetermined, never a violation"]
+                   "kernel cases are checked against the documented domain inside evaluate (triangular a <= 0 <= b, a < b, an "
+                   "axis point that carries density whichever way the float axis rounds, magnitudes within 1e+-150; beta axis "
+                   "inside [0, 1]; one-sided generators x > 0, exponential x >= 0; the eight transcendental generators: the Lean "
+                   "tail decision); a case outside it is undetermined, never a violation"]
 
     # ------------------------------------------------------------------ generation
     def gen_psf(self, rng, m, unit):
